@@ -1328,3 +1328,39 @@ mod testing {
         do_sync_signed_custom_auth_test(TlsImplementation::Nativetls, true)
     }
 }
+/// Verification hooks (feature `verif` only, add-only): read accessors for what the builder would
+/// hand to the underlying client, computed by the builder's own private functions.
+#[cfg(feature = "verif")]
+impl AwsClientBuilder {
+    /// The final connect options and client options `build_threaded` / `build_tokio` compute
+    /// before constructing the client (no TLS context is built, no client is started).
+    pub fn verif_final_options(&self) -> (ConnectOptions, MqttClientOptions) {
+        let user_connect_options =
+            if let Some(options) = &self.connect_options {
+                options.clone()
+            } else {
+                ConnectOptions::builder().build()
+            };
+
+        let final_connect_options = self.build_final_connect_options(user_connect_options);
+
+        let client_options =
+            if let Some(options) = &self.client_options {
+                options.clone()
+            } else {
+                MqttClientOptions::builder().build()
+            };
+
+        (final_connect_options, apply_aws_defaults(client_options))
+    }
+}
+
+/// Verification hooks (feature `verif` only, add-only)
+#[cfg(feature = "verif")]
+impl AwsCustomAuthOptions {
+    /// Final CONNECT username (user name + query string)
+    pub fn verif_username(&self) -> &str { self.username.as_str() }
+
+    /// Final CONNECT password
+    pub fn verif_password(&self) -> &Option<Vec<u8>> { &self.password }
+}
